@@ -177,12 +177,21 @@ theorem C14_workflow_value_reaches_task (wf special td tv : KV) (k v : String)
   have := C14_template_below_workflow wf special td tv k hk
   simp [this, hv]
 
-/-- The model's observation at a role is what the Spec demands, for every role
-    description, key universe and special-value map over the six special names:
-    the correspondence run compares the code with `modelObs`, this theorem
-    carries that over to `Spec.expected`. -/
-theorem C14_model_meets_spec (keys : List String) (special : KV) (r : RoleIn)
-    (hclear : ∀ k ∈ keys, lookup special k = none) :
+/-- Full-strength tie between mechanism and rule: the model's observation at a
+    role is what the Spec demands, for every role description, key universe and
+    special-value map over the six special names. REFUTED below: the command
+    line ranks the task template's defaults over its vars. -/
+def C14_model_meets_spec_full : Prop :=
+  ∀ (keys : List String) (special : KV) (r : RoleIn),
+    (∀ k ∈ keys, lookup special k = none) → modelObs keys special r = expected keys r
+
+/-- The same with the excluded class spelled out (`tmplOrderIrrelevant`): the
+    correspondence run compares the code with `modelObs`, this theorem carries
+    that over to `Spec.expected` — everything the property demands of stack,
+    maps, Get, FlattenStack, the six stages and the task's properties holds for
+    ALL inputs; the task's command line is the only part that needs the hypothesis. -/
+theorem C14_model_meets_spec_partial (keys : List String) (special : KV) (r : RoleIn)
+    (hclear : ∀ k ∈ keys, lookup special k = none) (hyp : tmplOrderIrrelevant keys r = true) :
     modelObs keys special r = expected keys r := by
   have congr := tabulate_congr keys
   have hfl : ∀ c : Chain, tabulate keys (lookup (flatten c)) = tabulate keys (get c) :=
@@ -204,11 +213,39 @@ theorem C14_model_meets_spec (keys : List String) (special : KV) (r : RoleIn)
       · apply congr
         intro k hk
         rw [(C14_template_below_workflow _ special td tv k (hclear k hk)).1, lookup_consolidated]
-        simp [firstDefined, rankedCmd, get_append, get_cons]
+        have h := (List.all_eq_true.mp hyp) k hk
+        simp only [Bool.or_eq_true, Option.isSome_iff_exists, Option.isNone_iff_eq_none, beq_iff_eq] at h
+        simp only [firstDefined, rankedTask, get_append, get_cons, get_nil, orElse_none_right]
+        rcases h with ((⟨v, hv⟩ | h) | h) | h
+        · rw [hv]; rfl
+        · rw [h]; simp
+        · rw [h]; simp
+        · rw [h]
       · apply congr
         intro k hk
         rw [(C14_template_below_workflow _ special td tv k (hclear k hk)).2, lookup_consolidated]
-        simp [firstDefined, rankedProp, get_append, get_cons]
+        simp [firstDefined, rankedTask, get_append, get_cons]
+
+/-- Known finding `task_template_defaults_over_vars`, refuted on a witness: a task
+    under a bare root whose template sets `k` in defaults AND in vars. Its
+    properties see the vars' value, its command line the defaults' value. -/
+theorem C14_finding_task_template_defaults_over_vars : ¬ C14_model_meets_spec_full := by
+  intro h
+  have := h ["k"] [] { path := [{ defaults := [], vars := [], userVars := [] }, { defaults := [], vars := [], userVars := [] }],
+                       locals := [], tmpl := some ([("k", "td")], [("k", "tv")]) } (by intro k _; rfl)
+  revert this
+  decide
+
+/-- What the command line does see (as coded): workflow, then template defaults, then template vars. -/
+theorem C14_cmd_as_coded (keys : List String) (special : KV) (p : Path) (locals td tv : KV)
+    (hclear : ∀ k ∈ keys, lookup special k = none) :
+    ((modelObs keys special { path := p, locals := locals, tmpl := some (td, tv) }).task.map (·.1))
+      = some (tabulate keys (firstDefined (rankedCmdAsCoded p td tv))) := by
+  simp only [modelObs, Option.map_some, Option.some.injEq]
+  apply tabulate_congr
+  intro k hk
+  rw [(C14_template_below_workflow _ special td tv k (hclear k hk)).1, lookup_consolidated]
+  simp [firstDefined, rankedCmdAsCoded, get_append, get_cons]
 
 /-! ## non-vacuity and contrast -/
 
